@@ -20,7 +20,7 @@ mem: 14
 */
 /*@unit
 name: table.add_var.shape
-define: U_ADD, MEM_PART=1, VERIF_MEMHASH_REALLOC_ELEM_T=spifmem_ptr_t, VERIF_MEMHASH_STRNCPY_MODEL
+define: U_ADD, MEM_ENF_ADD, MEM_PART=1, VERIF_MEMHASH_REALLOC_ELEM_T=spifmem_ptr_t, VERIF_MEMHASH_STRNCPY_MODEL
 debug: 5
 src: mem.c
 enforce: memrec_add_var
@@ -30,7 +30,7 @@ mem: 14
 */
 /*@unit
 name: table.add_var.records
-define: U_ADD, MEM_PART=2, VERIF_MEMHASH_REALLOC_ELEM_T=spifmem_ptr_t, VERIF_MEMHASH_STRNCPY_MODEL
+define: U_ADD, MEM_ENF_ADD, MEM_PART=2, VERIF_MEMHASH_REALLOC_ELEM_T=spifmem_ptr_t, VERIF_MEMHASH_STRNCPY_MODEL
 debug: 5
 src: mem.c
 enforce: memrec_add_var
@@ -40,7 +40,7 @@ mem: 14
 */
 /*@unit
 name: table.add_var.nodup
-define: U_ADD, MEM_PART=3, VERIF_MEMHASH_REALLOC_ELEM_T=spifmem_ptr_t, VERIF_MEMHASH_STRNCPY_MODEL
+define: U_ADD, MEM_ENF_ADD, MEM_PART=3, VERIF_MEMHASH_REALLOC_ELEM_T=spifmem_ptr_t, VERIF_MEMHASH_STRNCPY_MODEL
 debug: 5
 src: mem.c
 enforce: memrec_add_var
@@ -49,41 +49,80 @@ timeout: 280
 mem: 14
 */
 /*@unit
-name: table.rem_var.shape
-define: U_REM, MEM_PART=1, VERIF_MEMHASH_REALLOC_ELEM_T=spifmem_ptr_t, VERIF_MEMHASH_MEMMOVE_MODEL
+name: table.rem_var.cnt0
+define: U_REM, MEMREC_HARNESS_CNT=0, VERIF_MEMHASH_REALLOC_ELEM_T=spifmem_ptr_t, VERIF_MEMHASH_MEMMOVE_LOOP
 debug: 5
 src: mem.c
 enforce: memrec_rem_var
 backend: sat
-loops: 1
+tier: B
+bound: table of exactly 0 records (cnt <= 5 over the units rem_var.cnt0..cnt5); pointer, contents and ghost indices symbolic
+unwind: 8
 timeout: 280
-mem: 14
 */
 /*@unit
-name: table.rem_var.records
-define: U_REM, MEM_PART=2, VERIF_MEMHASH_REALLOC_ELEM_T=spifmem_ptr_t, VERIF_MEMHASH_MEMMOVE_MODEL
+name: table.rem_var.cnt1
+define: U_REM, MEMREC_HARNESS_CNT=1, VERIF_MEMHASH_REALLOC_ELEM_T=spifmem_ptr_t, VERIF_MEMHASH_MEMMOVE_LOOP
 debug: 5
 src: mem.c
 enforce: memrec_rem_var
 backend: sat
-loops: 1
+tier: B
+bound: table of exactly 1 records (cnt <= 5 over the units rem_var.cnt0..cnt5); pointer, contents and ghost indices symbolic
+unwind: 8
 timeout: 280
-mem: 14
 */
 /*@unit
-name: table.rem_var.nodup
-define: U_REM, MEM_PART=3, VERIF_MEMHASH_REALLOC_ELEM_T=spifmem_ptr_t, VERIF_MEMHASH_MEMMOVE_MODEL
+name: table.rem_var.cnt2
+define: U_REM, MEMREC_HARNESS_CNT=2, VERIF_MEMHASH_REALLOC_ELEM_T=spifmem_ptr_t, VERIF_MEMHASH_MEMMOVE_LOOP
 debug: 5
 src: mem.c
 enforce: memrec_rem_var
 backend: sat
-loops: 1
+tier: B
+bound: table of exactly 2 records (cnt <= 5 over the units rem_var.cnt0..cnt5); pointer, contents and ghost indices symbolic
+unwind: 8
 timeout: 280
-mem: 14
+*/
+/*@unit
+name: table.rem_var.cnt3
+define: U_REM, MEMREC_HARNESS_CNT=3, VERIF_MEMHASH_REALLOC_ELEM_T=spifmem_ptr_t, VERIF_MEMHASH_MEMMOVE_LOOP
+debug: 5
+src: mem.c
+enforce: memrec_rem_var
+backend: sat
+tier: B
+bound: table of exactly 3 records (cnt <= 5 over the units rem_var.cnt0..cnt5); pointer, contents and ghost indices symbolic
+unwind: 8
+timeout: 280
+*/
+/*@unit
+name: table.rem_var.cnt4
+define: U_REM, MEMREC_HARNESS_CNT=4, VERIF_MEMHASH_REALLOC_ELEM_T=spifmem_ptr_t, VERIF_MEMHASH_MEMMOVE_LOOP
+debug: 5
+src: mem.c
+enforce: memrec_rem_var
+backend: sat
+tier: B
+bound: table of exactly 4 records (cnt <= 5 over the units rem_var.cnt0..cnt5); pointer, contents and ghost indices symbolic
+unwind: 8
+timeout: 280
+*/
+/*@unit
+name: table.rem_var.cnt5
+define: U_REM, MEMREC_HARNESS_CNT=5, VERIF_MEMHASH_REALLOC_ELEM_T=spifmem_ptr_t, VERIF_MEMHASH_MEMMOVE_LOOP
+debug: 5
+src: mem.c
+enforce: memrec_rem_var
+backend: sat
+tier: B
+bound: table of exactly 5 records (cnt <= 5 over the units rem_var.cnt0..cnt5); pointer, contents and ghost indices symbolic
+unwind: 8
+timeout: 280
 */
 /*@unit
 name: table.chg_var.shape
-define: U_CHG, MEM_PART=1, VERIF_MEMHASH_STRNCPY_MODEL
+define: U_CHG, MEM_ENF_CHG, MEM_PART=1, VERIF_MEMHASH_STRNCPY_MODEL
 debug: 5
 src: mem.c
 enforce: memrec_chg_var
@@ -94,7 +133,7 @@ mem: 14
 */
 /*@unit
 name: table.chg_var.records
-define: U_CHG, MEM_PART=2, VERIF_MEMHASH_STRNCPY_MODEL
+define: U_CHG, MEM_ENF_CHG, MEM_PART=2, VERIF_MEMHASH_STRNCPY_MODEL
 debug: 5
 src: mem.c
 enforce: memrec_chg_var
@@ -105,7 +144,7 @@ mem: 14
 */
 /*@unit
 name: table.chg_var.nodup
-define: U_CHG, MEM_PART=3, VERIF_MEMHASH_STRNCPY_MODEL
+define: U_CHG, MEM_ENF_CHG, MEM_PART=3, VERIF_MEMHASH_STRNCPY_MODEL
 debug: 5
 src: mem.c
 enforce: memrec_chg_var
